@@ -1,10 +1,16 @@
 """C04 - internal circuit reorderings (program_utils.list_to_grid/grid_to_DAG/DAG_to_list/
 group_operations, GBS.compile, remove_loss)
 
-Decided by a BOUNDED stand-in only (labelled bounded): native/c04_reorder.py.  The reordering
-routines build dicts of lists of shared Command objects and hand them to networkx; an unbounded
-proof needs sequence-of-subsequence invariants over a symbolic dict-of-lists heap that the engine
-does not model (see DESIGN 5/C04).  What the stand-in adds over tests: it is exhaustive over all
+The reordering routines build dicts of lists of shared Command objects and hand them to networkx; an
+unbounded proof needs sequence-of-subsequence invariants over a symbolic dict-of-lists heap that the
+engine does not model (see DESIGN 5/C04).  What IS put under contract here (shape-bounded): the real
+list_to_grid / grid_to_DAG / DAG_to_list / group_operations are run on ABSTRACT commands - only the
+contract of Command.get_dependencies (a set of register references) is known - for every assignment of
+dependency sets to sequences of 1..3 (thorough: 4) commands over 3 wires; the clauses are the property's:
+per-wire order = program order, a DAG edge between consecutive users of a wire and a path between every
+dependent pair, linearisations are permutations that keep every dependent pair in order, the grouping is
+a dependency-respecting permutation A+B+C with no marked command outside B.  The rest is the BOUNDED
+stand-in native/c04_reorder.py.  What the stand-in adds over tests: it is exhaustive over all
 sequences up to the bound, includes feed-forward (measured-parameter) commands, and checks DAG PATHS
 between every dependent pair, which covers every legal topological order rather than the one
 networkx returns.
@@ -12,7 +18,8 @@ networkx returns.
 from pyvc.api import *
 
 level("C04", "other",
-      "Bounded stand-in (not a proof): exhaustive over all command sequences of length <= 3 (quick) / <= 4 (thorough) over "
+      "Shape-bounded contracts on abstract commands (every dependency-set assignment for sequences of <= 3 / 4 commands over 3 "
+      "wires): list_to_grid, grid_to_DAG, DAG_to_list, group_operations. Bounded stand-in (not a proof): exhaustive over all command sequences of length <= 3 (quick) / <= 4 (thorough) over "
       "a 13-symbol alphabet on 3 modes (one- and two-mode gates in both orders, measurements, three feed-forward gates, "
       "a loss channel) plus seeded random longer sequences; for each: get_dependencies, per-wire grid content and order, DAG "
       "node set, acyclicity and a directed PATH between every pair of commands sharing a mode or a measured parameter "
@@ -24,3 +31,99 @@ level("C04", "other",
 native("C04", "c04_reorder", "native/c04_reorder.py",
        bound="all sequences of length <= 3 (quick) / 4 (thorough) over 13 symbols on 3 modes + 400/4000 random longer ones; 24 GBS programs",
        timeout=900)
+
+
+# ---------------------------------------------------------------------------------------------
+import itertools
+
+PU = "strawberryfields.program_utils"
+WIRES = 3
+DEPSETS = [frozenset(c) for r in range(1, WIRES + 1) for c in itertools.combinations(range(WIRES), r)]
+
+
+class Ref_:
+    def __init__(self, ind):
+        self.ind = ind
+
+    def __repr__(self):
+        return f"r{self.ind}"
+
+
+class ACmd:
+    """abstract command: an identity, a dependency set and a mark (for the grouping predicate)"""
+    def __init__(self, k, refs, marked):
+        self.k, self.deps, self.marked = k, set(refs), marked
+        self.op = self
+
+    def get_dependencies(self):
+        return set(self.deps)
+
+    def __repr__(self):
+        return f"c{self.k}{sorted(r.ind for r in self.deps)}{'*' if self.marked else ''}"
+
+
+def sequences(L):
+    for deps in itertools.product(range(len(DEPSETS)), repeat=L):
+        yield deps
+
+
+def reachable(dag, a, b):
+    import networkx as nx
+    return nx.has_path(dag, a, b)
+
+
+def reorder_case(h, L):
+    pu = h.module(PU)
+    cases = list(sequences(L))
+    deps = cases[h.eng.choose(len(cases), "deps")]
+    marks = h.eng.choose(2 ** L, "marks")
+    refs = [Ref_(w) for w in range(WIRES)]
+    seq = [ACmd(k, [refs[w] for w in DEPSETS[d]], bool(marks >> k & 1)) for k, d in enumerate(deps)]
+    dependent = [(a, b) for i, a in enumerate(seq) for b in seq[i + 1:] if {r.ind for r in a.deps} & {r.ind for r in b.deps}]
+    out = h.call(pu.list_to_grid, list(seq))
+    h.ensure("list_to_grid.no-exception", out.returned, bounded_shape=True)
+    if not out.returned:
+        return
+    grid = out.value
+    h.ensure("list_to_grid.every-used-wire-and-no-other", set(grid) == {r.ind for c in seq for r in c.deps}, bounded_shape=True)
+    h.ensure("list_to_grid.wire-holds-its-users-in-program-order",
+             all(grid[w] == [c for c in seq if w in {r.ind for r in c.deps}] for w in grid), bounded_shape=True)
+    out = h.call(pu.grid_to_DAG, grid)
+    h.ensure("grid_to_DAG.no-exception", out.returned, bounded_shape=True)
+    if not out.returned:
+        return
+    dag = out.value
+    import networkx as nx
+    h.ensure("grid_to_DAG.nodes-are-the-commands", set(dag.nodes) == set(seq) and dag.number_of_nodes() == len(seq), bounded_shape=True)
+    h.ensure("grid_to_DAG.acyclic", nx.is_directed_acyclic_graph(dag), bounded_shape=True)
+    h.ensure("grid_to_DAG.path-between-every-dependent-pair", all(reachable(dag, a, b) for a, b in dependent), bounded_shape=True)
+    h.ensure("grid_to_DAG.edges-only-from-earlier-to-later-dependent-commands",
+             all(a.k < b.k and ({r.ind for r in a.deps} & {r.ind for r in b.deps}) for a, b in dag.edges), bounded_shape=True)
+    out = h.call(pu.DAG_to_list, dag)
+    h.ensure("DAG_to_list.no-exception", out.returned, bounded_shape=True)
+    if out.returned:
+        ls = out.value
+        pos = {c: i for i, c in enumerate(ls)}
+        h.ensure("DAG_to_list.permutation", sorted(c.k for c in ls) == list(range(L)), bounded_shape=True)
+        h.ensure("DAG_to_list.dependent-pairs-keep-their-order", all(pos[a] < pos[b] for a, b in dependent if a in pos and b in pos), bounded_shape=True)
+    out = h.call(pu.group_operations, list(seq), lambda op: op.marked)
+    h.ensure("group_operations.no-exception", out.returned, bounded_shape=True)
+    if out.returned:
+        A, B, C = out.value
+        flat = list(A) + list(B) + list(C)
+        pos = {c: i for i, c in enumerate(flat)}
+        h.ensure("group_operations.A+B+C-is-a-permutation", sorted(c.k for c in flat) == list(range(L)), bounded_shape=True)
+        h.ensure("group_operations.dependent-pairs-keep-their-order", all(pos[a] < pos[b] for a, b in dependent if a in pos and b in pos), bounded_shape=True)
+        h.ensure("group_operations.no-marked-command-in-A-or-C", not any(c.marked for c in list(A) + list(C)), bounded_shape=True)
+        h.ensure("group_operations.C-empty-when-B-is", bool(B) or not C, bounded_shape=True)
+
+
+for L_ in (1, 2, 3, 4):
+    def mk(L=L_):
+        def f(h):
+            reorder_case(h, L)
+        f.__name__ = ""
+        return f
+    PROOFS.append(Proof("C04", PU + ":list_to_grid", mk(), name=f"reordering/abstract-commands/length={L_}",
+                        uses=[PU + ":grid_to_DAG", PU + ":DAG_to_list", PU + ":group_operations"],
+                        max_paths=200000, tier_only=("thorough" if L_ == 4 else None)))
